@@ -37,6 +37,9 @@ pub enum TypeError {
 
     #[error("The separator for split must not be empty")]
     EmptySeparator,
+
+    #[error("The pattern is too large")]
+    PatternTooLarge,
 }
 
 pub trait TypeCheck<O> {
@@ -197,7 +200,17 @@ impl TypeCheck<Box<dyn operator::OperatorBuilder + Send + Sync>>
                 no_drop,
                 no_convert,
             } => {
-                let regex = pattern.to_regex();
+                let regex = match pattern.try_to_regex() {
+                    Ok(regex) => regex,
+                    Err(_) => {
+                        let e = TypeError::PatternTooLarge;
+                        error_builder
+                            .report_error_for(&e)
+                            .with_code_range(self.range, "too many wildcards or blanks")
+                            .send_report();
+                        return Err(e);
+                    }
+                };
 
                 let input_column = match input_column {
                     (Some(from), None) | (None, Some(from)) => Some(from.value),
